@@ -481,7 +481,12 @@ PROPS = {
                    thorough=2000, trace=CONC_TRACE, final_rc3=True),
               dict(driver="hist", args=["--nops", "70", "--per-file", "6", "--descriptors",
                                         "--compact-bias", "1", "--profile", "fill"],
-                   quick=24, thorough=600)]),
+                   quick=24, thorough=600),
+              # values of 2.2 .. 3.2 MiB: above every internal byte counter's period (log blocks,
+              # the iterator's read sampling, file and memtable budgets)
+              dict(driver="hist", args=["--nops", "60", "--per-file", "6", "--giant-values",
+                                        "--max-iters", "2"],
+                   quick=12, thorough=300)]),
     "C04": dict(
         design=[("MC_RainIter.tla", ["MC_RainIter_small.cfg"], ["MC_RainIter_small.cfg", "MC_RainIter_big.cfg"])],
         switches=[("Bug_NoReseekOnDirectionChange", "MC_RainIter.tla", "MC_RainIter_small.cfg", "CursorOK"),
